@@ -55,6 +55,16 @@ def run(prop, tier):
     if prop == "C03":
         from . import schedules
         extra_jobs = schedules.jobs(tier)
+    if prop == "C05":
+        # sub-hourly report feed of the CalTRACK family (its data class resamples to hours): one scripted history, both tiers
+        fam, rep = "caltrack", []
+        hist = [{"op": "make", "d": "b:good", "fam": fam, "kind": "baseline", "name": "good"}, {"op": "new", "s": "s1", "fam": fam, "prof": "caltrack", "seed": 1},
+                {"op": "fit", "s": "s1", "d": "b:good", "ign": True}]
+        for obs in ("orig", "partnan", "absent", "x3", "allnan"):
+            d = "r:whalf:" + obs
+            hist.append({"op": "make", "d": d, "fam": fam, "kind": "reporting", "name": "whalf", "obs": obs})
+            hist.append({"op": "predict", "s": "s1", "d": d, "ign": True, "agg": "None"})
+        extra_jobs = [{"hist": hist, "abstract": [{"op": "subhourly", "fam": fam}], "scenario": "subhourly", "fam": fam, "prof": "caltrack"}]
     if prop == "C02":
         # data objects only (no fit): every family's data classes, all entry forms, must leave the caller's frames alone.  This is
         # how the CalTRACK hourly family (whose fit takes 10 s and is otherwise thorough-only) is present in the quick tier.
@@ -62,7 +72,8 @@ def run(prop, tier):
         for fam in ("caltrack", "hourly", "daily", "billing"):
             hist = []
             for did, kind, name, obs in (("b:good", "baseline", "good", "orig"), ("b:gaps", "baseline", "gaps", "orig"),
-                                         ("r:wmonth:orig", "reporting", "wmonth", "orig"), ("r:wweek:absent", "reporting", "wweek", "absent")):
+                                         ("r:wmonth:orig", "reporting", "wmonth", "orig"), ("r:wweek:absent", "reporting", "wweek", "absent")) + \
+                    ((("r:whalf:orig", "reporting", "whalf", "orig"), ("r:whalf:partnan", "reporting", "whalf", "partnan")) if fam == "caltrack" else ()):      # 30-minute feed, index without a frequency
                 for entry in (["frame"] if fam == "caltrack" else ["frame", "dtcol", "naive", "notemp"] + (["series", "series_utc"] if fam in ("daily", "billing") else [])):
                     hist.append({"op": "make", "d": "%s@%s" % (did, entry), "fam": fam, "kind": kind, "name": name, "obs": obs, "entry": entry})
             hist.append({"op": "readdf", "d": "b:good@frame"})
